@@ -1455,6 +1455,14 @@ impl Model {
         }
         let name = upper(&args[0]);
         let mut parts = vec![name.clone()];
+        if (name == "XGROUP" || name == "XINFO") && args.len() > 2 {
+            // the key is the third word
+            let mut p = vec![format!("{} {}", name, upper(&args[1])), format!("{}:{}", crate::resp::show_bytes(&args[2]), self.key_class(db, &args[2]))];
+            for a in &args[3..] {
+                p.push(crate::resp::show_bytes(a));
+            }
+            return p.join(" ");
+        }
         let keyclass = if args.len() > 1 { self.key_class(db, &args[1]) } else { String::new() };
         let len = if args.len() > 1 { self.dbs[db].keys.get(&args[1]).map(|e| e.val.size()).unwrap_or(0) } else { 0 };
         let idx_positions: &[usize] = match name.as_str() {
@@ -1462,7 +1470,43 @@ impl Model {
             "LINDEX" | "LSET" | "SETRANGE" => &[2],
             _ => &[],
         };
+        let stream_info: Option<(Vec<super::streams::Id>, super::streams::Id)> = if args.len() > 1 && matches!(name.as_str(), "XRANGE" | "XREVRANGE" | "XDEL") {
+            match self.dbs[db].keys.get(&args[1]) {
+                Some(Entry { val: Val::Stream(s), .. }) => Some((s.entries.keys().cloned().collect(), s.last_id)),
+                _ => Some((vec![], (0, 0))),
+            }
+        } else {
+            None
+        };
+        if name == "XREAD" || name == "XREADGROUP" {
+            // XREAD [COUNT n] STREAMS k.. id..: classify the ids against their streams
+            if let Some(pos) = args.iter().position(|a| upper(a) == "STREAMS") {
+                let rest = &args[pos + 1..];
+                let k = rest.len() / 2;
+                for a in &args[1..=pos] {
+                    parts.push(crate::resp::show_bytes(a));
+                }
+                for j in 0..k {
+                    let key = &rest[j];
+                    let (ids, last) = match self.dbs[db].keys.get(key) {
+                        Some(Entry { val: Val::Stream(s), .. }) => (s.entries.keys().cloned().collect::<Vec<_>>(), s.last_id),
+                        _ => (vec![], (0, 0)),
+                    };
+                    parts.push(format!("{}:{}@{}", crate::resp::show_bytes(key), self.key_class(db, key), super::streams::bound_class(&rest[k + j], &ids, last)));
+                }
+                if rest.len() % 2 != 0 {
+                    parts.push("odd".into());
+                }
+                return parts.join(" ");
+            }
+        }
         for (i, a) in args.iter().enumerate().skip(1) {
+            if let Some((ids, last)) = &stream_info {
+                if i >= 2 && (name == "XDEL" || i <= 3) {
+                    parts.push(super::streams::bound_class(a, ids, *last));
+                    continue;
+                }
+            }
             if i == 1 {
                 parts.push(format!("{}:{}", crate::resp::show_bytes(a), keyclass));
                 continue;
@@ -1470,6 +1514,12 @@ impl Model {
             if idx_positions.contains(&i) {
                 parts.push(index_class(a, len));
                 continue;
+            }
+            if self.sig_ms_base > 0 {
+                if let Some(id) = super::streams::parse_id(a) {
+                    parts.push(super::streams::rel_id(id, self.sig_ms_base));
+                    continue;
+                }
             }
             if a.len() <= 16 || lenient_i64(a).is_some() {
                 parts.push(crate::resp::show_bytes(a));
